@@ -36,7 +36,7 @@ def write_replay(prop, key, v):
     return path
 
 
-def finish(prop, tier, level, merged_list, t0, rule_text, assumptions, extra_cov=None, exhaustive=True, reproduce=None, technique=None):
+def finish(prop, tier, level, merged_list, t0, rule_text, assumptions, extra_cov=None, exhaustive=True, reproduce=None, technique=None, repro_horizon=60.0):
     """merged_list: list of explore.Merged (one per sub-exploration).  reproduce(item) -> set of key strings
     (re-execution of a single item; used to make sure a violation fails every time)."""
     known, fixed = load_known()
@@ -75,11 +75,22 @@ def finish(prop, tier, level, merged_list, t0, rule_text, assumptions, extra_cov
             print(f"KNOWN-FINDING: property={prop} {ks} witness={v['item'].get('id') if isinstance(v.get('item'), dict) else ''}")
             continue
         if reproduce is not None:
+            import signal
+
+            from . import explore
+
+            signal.signal(signal.SIGALRM, explore._alarm)
+            signal.setitimer(signal.ITIMER_REAL, repro_horizon)  # the same execution must fail again, hangs included
             try:
                 again = reproduce(v["item"])
+            except explore.Timeout:
+                again = None
+                print("HARNESS-ERROR reproduce hit the watchdog outside an attributed call")
             except Exception as e:  # noqa
                 again = None
                 print(f"HARNESS-ERROR reproduce raised {type(e).__name__}: {e}")
+            finally:
+                signal.setitimer(signal.ITIMER_REAL, 0)
             if again is None or ks not in again:
                 print(f"HARNESS-ERROR non-reproducible outcome property={prop} key={ks}")
                 status = 2
